@@ -245,10 +245,19 @@ def gen_cases(ctx):
         n = rng.randint(1, 6)
         rows = []
         for _r in range(n):
-            if rng.random() < 0.5:
+            u = rng.random()
+            if u < 0.4:
                 M = rng.choice(INT_ROT)
                 label, lam = rng.choice(tensor_menu(rng))
                 rows.append(array_from_matrix(sym_from_eigs(M, lam), True, None))
+            elif u < 0.7:
+                # ordinary physical scale (1/K): values ~1e-5, spread of the principal values
+                # below 1e-5, principal axes rotated; decimal, hence not dyadic
+                M = rng.choice(INT_ROT[1:])
+                lam = [Fr(rng.randint(100, 250), 10 ** 7) for _ in range(3)]
+                if rng.random() < 0.3:
+                    lam[1] = lam[0]
+                rows.append([Fr(float(x)) for x in array_from_matrix(sym_from_eigs(M, lam), True, None)])
             else:
                 rows.append([dyadic(rng, rng.choice(['mid', 'int'])) for _ in range(6)])
         base, variant, mode = id_orders(n)
@@ -472,30 +481,37 @@ def oracle(c, r):
         lte_id, orient_id = by_id(r['lte']), by_id(r['orient'])
         if any(None in row for t in (final, lte_id, orient_id) for row in t.values()):
             return bad + [('nan', '')]
-        differs = vids != c['ids'] or (c.get('l2g_only') and c['orient_ids'] != vids)
-        cause = 'rows-attached-positionally' if differs else 'values'
+        eids = r['element_ids']
+
+        def close(x, y, ref):
+            tol = TOL * scale_of(ref) * 4
+            return x is not None and y is not None and all(abs(p_ - q_) <= tol for p_, q_ in zip(x, y))
         if c.get('l2g_only'):
             lin = {i: [Fr(*x) for x in row] for i, row in zip(vids, c['lte'])}
             oin = {i: [Fr(*x) for x in row] for i, row in zip(c['orient_ids'], c['orient'])}
-            for i in vids:
-                want = l2g_exact(lin[i], oin[i])
-                tol = TOL * scale_of(want) * 4
-                if i not in final or any(abs(x - y) > tol for x, y in zip(final[i], want)):
-                    bad.append(('lte-local2global-per-element:' + cause, {'element_id': i}))
-                    break
+            ok = all(close(final.get(i), l2g_exact(lin[i], oin[i]), l2g_exact(lin[i], oin[i])) for i in vids)
+            if not ok:
+                # is it exactly what positional attachment predicts?
+                lrows = [[Fr(*x) for x in row] for row in c['lte']]
+                orows = [[Fr(*x) for x in row] for row in c['orient']]
+                pos = (vids != eids or c['orient_ids'] != vids) and all(
+                    close(final.get(eids[kk]), l2g_exact(lrows[kk], orows[kk]), l2g_exact(lrows[kk], orows[kk]))
+                    for kk in range(len(vids)))
+                bad.append(('lte-local2global-per-element:' +
+                            ('rows-attached-positionally' if pos else 'values'), {}))
         else:
             inp = {i: [Fr(*x) for x in row] for i, row in zip(vids, c['a'])}
-            for i in vids:
-                tol = TOL * scale_of(inp[i]) * 4
-                if i not in lte_id or i not in orient_id or \
-                        any(abs(x - y) > tol for x, y in zip(l2g_exact(lte_id[i], orient_id[i]), inp[i])):
-                    bad.append(('lte-local-values-per-element:' + cause, {'element_id': i}))
-                    break
-            for i in vids:
-                tol = TOL * scale_of(inp[i]) * 4
-                if i not in final or any(abs(x - y) > tol for x, y in zip(final[i], inp[i])):
-                    bad.append(('lte-round-trip-per-element:' + cause, {'element_id': i}))
-                    break
+            rows = [[Fr(*x) for x in row] for row in c['a']]
+            ok_local = all(i in lte_id and i in orient_id and
+                           close(l2g_exact(lte_id[i], orient_id[i]), inp[i], inp[i]) for i in vids)
+            ok_final = all(close(final.get(i), inp[i], inp[i]) for i in vids)
+            if not (ok_local and ok_final):
+                pos = vids != eids and all(
+                    eids[kk] in lte_id and eids[kk] in orient_id and
+                    close(l2g_exact(lte_id[eids[kk]], orient_id[eids[kk]]), rows[kk], rows[kk]) and
+                    close(final.get(eids[kk]), rows[kk], rows[kk]) for kk in range(len(vids)))
+                which = 'lte-local-values-per-element' if not ok_local else 'lte-round-trip-per-element'
+                bad.append((which + ':' + ('rows-attached-positionally' if pos else 'values'), {}))
     elif k == 'align':
         if not r['inputs_unchanged']:
             bad.append(('caller-array-modified', 'align_nnz'))
@@ -809,6 +825,7 @@ def main(ctx):
     # 4. oracle on the implementation
     n_bad = 0
     per_what = {}
+    known_whats = set()
     for c in cases:
         r = res[c['id']]
         ctx.count('kind:' + c['kind'])
@@ -844,15 +861,21 @@ def main(ctx):
         for what, detail in bad[:1]:
             n_bad += 1
             per_what[(c['kind'], what)] = per_what.get((c['kind'], what), 0) + 1
+            if (c['kind'], what) in known_whats:
+                n_bad -= 1
+                continue
             if per_what[(c['kind'], what)] > 3:     # same failure mode: first three inputs only
                 continue
-            ctx.violation('impl-violation', public_case(c),
+            is_known = ctx.violation('impl-violation', public_case(c),
                           'C17 holds on this input (round trip / sorted, orthonormal, right-handed, '
                           'rebuild / involution / aligned values / caller array untouched)',
                           {'what': what, 'detail': detail,
                            'impl': {k: v for k, v in r.items() if k not in ('id',)}},
                           'oracle on implementation (statement of C17)', found_input=True,
                           signature=sig_of(c, what), what=f'{c["kind"]}: {what}')
+            if is_known:
+                n_bad -= 1          # a listed finding is not the failing input of a NEW break
+                known_whats.add((c['kind'], what))
     ctx.notes['search_evaluations'] = len(cases)
     ctx.notes['impl_property_failures'] = n_bad
     ctx.notes['impl_property_failures_by_kind'] = {f'{k}:{w}': n for (k, w), n in per_what.items()}
@@ -896,7 +919,7 @@ def main(ctx):
         ctx.violation('tie-broken', {'translator_error': ctx.notes.get('translator_error')},
                       'translator accepts the tensor helpers', 'fail-closed',
                       'translator c17_tensor', found_input=False, signature={'kind': 'tie-broken'})
-    if not align_tie_ok and not any(k == 'align' for (k, _w) in per_what):
+    if not align_tie_ok and not any(k == 'align' and (k, _w) not in known_whats for (k, _w) in per_what):
         ctx.violation('tie-broken', {'function': 'align_nnz', 'message': align_msg},
                       'functions.align_nnz is the text Model.align_nnz was written from',
                       align_msg, 'exact-body tie of the hand model Model.align_nnz '
